@@ -9,7 +9,6 @@ import (
 	"go/constant"
 	"go/token"
 	"go/types"
-	"strings"
 
 	"golang.org/x/tools/go/ssa"
 )
@@ -397,27 +396,128 @@ func (u *Unit) externGlobal(pkgPath, name string) *ssa.Global {
 	return nil
 }
 
-// sprintfD: fmt.Sprintf("%d", x) with a single integer argument is dec(x).
+// sprintfD: fmt.Sprintf with a constant format made of literal text, %s (string arguments) and
+// %d (integer arguments) is the concatenation of the pieces, integers rendered by dec().
 func (fx *FX) sprintfD(st *State, c *CallCtx) (Val, bool) {
 	k, ok := c.C.Args[0].(*ssa.Const)
 	if !ok || k.Value == nil {
 		return nil, false
 	}
-	if strings.Trim(k.Value.ExactString(), "\"") != "%d" {
-		return nil, false
-	}
+	format := constant.StringVal(k.Value)
 	va, ok := c.Args[1].(VSlice)
 	if !ok {
 		return nil, false
 	}
-	if n, ok := isLit(va.Len); !ok || n != 1 {
+	n, ok := isLit(va.Len)
+	if !ok {
 		return nil, false
 	}
-	el, _ := unflatten(types.NewInterfaceType(nil, nil), fx.loadLeaves(st, va.Ref, va.Off, types.NewInterfaceType(nil, nil)))
-	iv := el.(VIface)
-	// value inside the box: an integer
-	x := sel(sel(st.H, iv.Box), num(0))
-	return VStr{app(SSeq, "dec", x)}, true
+	// static types of the arguments: the stores into the varargs array
+	argTypes := fx.varargTypes(c.C.Args[1], int(n))
+	if argTypes == nil {
+		return nil, false
+	}
+	anyT := types.NewInterfaceType(nil, nil)
+	var parts []T
+	lit := ""
+	ai := 0
+	flush := func() {
+		if lit != "" {
+			parts = append(parts, fx.strLit(lit))
+			lit = ""
+		}
+	}
+	for i := 0; i < len(format); i++ {
+		if format[i] != '%' {
+			lit += string(format[i])
+			continue
+		}
+		if i+1 >= len(format) || ai >= int(n) {
+			return nil, false
+		}
+		verb := format[i+1]
+		i++
+		el, _ := unflatten(anyT, fx.loadLeaves(st, va.Ref, add(va.Off, num(int64(ai)*2)), anyT))
+		iv := el.(VIface)
+		at := argTypes[ai]
+		ai++
+		if hasStringer(at) {
+			return nil, false
+		}
+		switch verb {
+		case 's':
+			if b, ok := at.Underlying().(*types.Basic); !ok || b.Info()&types.IsString == 0 {
+				return nil, false
+			}
+			flush()
+			parts = append(parts, sel(sel(st.Hs, iv.Box), num(0)))
+		case 'd':
+			if b, ok := at.Underlying().(*types.Basic); !ok || b.Info()&types.IsInteger == 0 {
+				return nil, false
+			}
+			flush()
+			parts = append(parts, app(SSeq, "dec", sel(sel(st.H, iv.Box), num(0))))
+		default:
+			return nil, false
+		}
+	}
+	flush()
+	if ai != int(n) || len(parts) == 0 {
+		return nil, false
+	}
+	r := parts[0]
+	for _, p := range parts[1:] {
+		r = app(SSeq, "cat", r, p)
+	}
+	return VStr{fx.def("sprintf", r)}, true
+}
+
+func hasStringer(t types.Type) bool {
+	for _, m := range []string{"String", "Error", "Format", "GoString"} {
+		if obj, _, _ := types.LookupFieldOrMethod(t, true, nil, m); obj != nil {
+			if _, ok := obj.(*types.Func); ok {
+				return true
+			}
+		}
+	}
+	return false
+}
+
+// varargTypes: the static types of the values stored into a varargs array `new [n]any (varargs)`.
+func (fx *FX) varargTypes(v ssa.Value, n int) []types.Type {
+	sl, ok := v.(*ssa.Slice)
+	if !ok {
+		return nil
+	}
+	al, ok := sl.X.(*ssa.Alloc)
+	if !ok || al.Referrers() == nil {
+		return nil
+	}
+	out := make([]types.Type, n)
+	for _, r := range *al.Referrers() {
+		ia, ok := r.(*ssa.IndexAddr)
+		if !ok || ia.Referrers() == nil {
+			continue
+		}
+		k, ok := ia.Index.(*ssa.Const)
+		if !ok {
+			return nil
+		}
+		idx, _ := constant.Int64Val(k.Value)
+		for _, r2 := range *ia.Referrers() {
+			if stt, ok := r2.(*ssa.Store); ok {
+				if mi, ok := stt.Val.(*ssa.MakeInterface); ok && int(idx) < n {
+					out[idx] = mi.X.Type()
+				}
+			}
+		}
+	}
+	for _, t := range out {
+		if t == nil {
+			return nil
+		}
+	}
+	return out
 }
 
 var _ = fmt.Sprintf
